@@ -552,6 +552,23 @@ def _maskload(vec, mask):
 def load_subscript(it, obj, k):
     if hasattr(obj, "abs_getitem"):
         return obj.abs_getitem(it, k)
+    if isinstance(obj, Module) and obj.name == "np.r_":
+        # np.r_[a, b, ...]: scalars and 1-D arrays concatenated
+        parts = k if isinstance(k, tuple) else (k,)
+        out, exact = [], True
+        for p in parts:
+            if isinstance(p, Vec):
+                out.extend(p.v)
+                exact = exact and p.exact
+            elif isinstance(p, (list, tuple)):
+                out.extend(p)
+            elif isinstance(p, (slice, Opaque)) or p is None:
+                raise Undecided(f"np.r_ with {p!r}")
+            else:
+                out.append(p)
+        r = Vec(out)
+        r.exact = exact
+        return r
     if isinstance(obj, GA):
         if isinstance(k, str):
             if k not in obj.data.cols:
@@ -1679,4 +1696,5 @@ def frame_from_records(it, args, kw):
             raise Raised("ValueError", f"{len(cols)} columns passed, passed data had {len(vals)} columns")
         for c, v in zip(cols, vals):
             data[c].append(v)
-    return DF({c: Vec(v) for c, v in data.items()}, len(rows))
+    out = DF({c: Vec(v, aligned=True) for c, v in data.items()}, len(rows))
+    return out
